@@ -66,7 +66,7 @@ func (i *Ignore) IsIncluded(path string, index *Index) bool {
 		if len(index.GetEntriesByDirectory(path)) > 0 {
 			target = fmt.Sprintf("%s/", path)
 		}
-	} else {
+	} else if err == nil {
 		if info.IsDir() && !directoryRegexp.MatchString(path) {
 			target = fmt.Sprintf("%s/", path)
 		}
